@@ -179,7 +179,7 @@ def run_history(sc, ctx, want, out):
         for idx, (x, (kd, t)) in enumerate(zip(v, r1.stack)):
             k2 = 'T' if isinstance(x, Proved) else 'P'
             try:
-                e = B.py_expand(x.conclusion if k2 == 'T' else x)
+                e = B.py_expand(x.conclusion if k2 == 'T' else x, lazy=True)     # the denoted pattern (unused notation arguments are not part of it)
             except T.Abort as ex:
                 return ('stack', 'tracker entry %d does not expand legally: %s' % (idx, ex))
             if k2 != kd or not B.unify(e, t, sm):
@@ -189,13 +189,13 @@ def run_history(sc, ctx, want, out):
         for idx, (x, (kd, t)) in enumerate(zip(inner.memory, r1.memory)):
             k2 = 'T' if isinstance(x, Proved) else 'P'
             try:
-                e = B.py_expand(x.conclusion if k2 == 'T' else x)
+                e = B.py_expand(x.conclusion if k2 == 'T' else x, lazy=True)
             except T.Abort as ex:
                 return ('memory', 'tracker slot %d does not expand legally: %s' % (idx, ex))
             if k2 != kd or not B.unify(e, t, sm):
                 return ('memory', 'slot %d: tracker %s:%s machine %s:%s' % (idx, k2, B.show_ext(e), kd, T.show(t)))
         if r1.phase == R.PROOF:
-            tc = [B.py_expand(c.pattern) for c in inner.claims]
+            tc = [B.py_expand(c.pattern, lazy=True) for c in inner.claims]
             mc = list(reversed(r1.claims))
             if len(tc) != len(mc) or not all(B.unify(a, b, sm) for a, b in zip(tc, mc)):
                 return ('claims', 'tracker remaining=%s machine outstanding (discharge order)=%s' % ([B.show_ext(c) for c in tc], [T.show(c) for c in mc]))
